@@ -137,6 +137,7 @@ def run(ctx):
     ctx.rule("R05.1", "mode -> effect table inside the job task: running & DoNothing -> nothing; Signal -> job.signal(stop_signal | signal | SIGTERM); "
                       "Restart -> job.restart_with_signal(stop_signal | SIGTERM, stop_timeout) then job.run(setup); Queue -> at most one queued task that awaits "
                       "to_wait, then start + run(setup) and clears the flag; not running -> job.start then job.run(setup)")
+    ctx.also("R05.1", "each control those calls enqueue has the documented effect row in the job task (shared with R09.1)")
     ctx.rule("R05.2", "the decision is taken inside the closure passed to Job::run_async, from context.current of that job task (not from state captured earlier)")
     ctx.rule("R05.3", "queue guard: the queued task is spawned only when fetch_or(queued, true) returned false; in it to_wait is awaited before start, and "
                       "store(false) comes after the awaited run ticket")
@@ -340,6 +341,13 @@ def run(ctx):
         pass
     try:
         jobrules.check_api_table(ctx, "R05.1")
+    except Skip:
+        pass
+    try:
+        # ... and what each of those controls does in the job task: the documented effect rows (rule owned by C09); queue mode rests on NextEnding
+        # resolving at once when nothing runs, restart on Stop-then-Start, do-nothing on Start being a no-op while running
+        from .. import jobtask as _jt5
+        jobrules.effect_table(ctx, _jt5.Bodies(ctx, "R05.1"), "R05.1")
     except Skip:
         pass
     try:
